@@ -211,3 +211,7 @@ pub use exports::*;
 #[cfg(not(feature = "__internal-api"))]
 pub(crate) use exports::*;
 use serde::{Deserialize, Serialize};
+
+#[cfg(all(test, feature = "pendulum_project_ntpd_rs_verif"))]
+#[path = "../../../verif/harness/ntp_proto/root.rs"]
+mod verif_root;
